@@ -242,3 +242,31 @@ func init() {
 		return TupleV{byteSlice(p, out, 32), &IfaceV{}}
 	}
 }
+
+func init() {
+	// maps.clone (runtime-implemented, no body): a shallow copy of the map
+	intrinsics["maps.clone"] = func(p *Path, fn *ssa.Function, args []Value) Value {
+		iv, ok := args[0].(*IfaceV)
+		var mv *MapV
+		if ok {
+			mv, _ = iv.Val.(*MapV)
+		} else {
+			mv, _ = args[0].(*MapV)
+		}
+		if mv == nil || mv.M == nil {
+			if ok {
+				return &IfaceV{Typ: iv.Typ, Val: &MapV{}}
+			}
+			return &MapV{}
+		}
+		p.objN++
+		m := &MapObj{ID: p.objN, Typ: mv.M.Typ}
+		for _, e := range mv.M.Entries {
+			m.Entries = append(m.Entries, &MapEntry{Key: e.Key, Val: e.Val, Present: e.Present})
+		}
+		if ok {
+			return &IfaceV{Typ: iv.Typ, Val: &MapV{M: m}}
+		}
+		return &MapV{M: m}
+	}
+}
